@@ -41,6 +41,8 @@ const (
 	tTr    // Fiat-Shamir transcript
 	tBytes // a label
 	tListInt
+	tListListK
+	tProof // an IPAProof value: (L, R, A_scalar)
 )
 
 func (t lty) lean() string {
@@ -65,6 +67,10 @@ func (t lty) lean() string {
 		return "Bytes"
 	case tListInt:
 		return "List Int"
+	case tListListK:
+		return "List (List K)"
+	case tProof:
+		return "(List G × List G × K)"
 	}
 	return "?"
 }
@@ -73,7 +79,7 @@ func (t lty) zero() string {
 	switch t {
 	case tK, tG:
 		return "0"
-	case tListK, tListBool, tListG, tListInt:
+	case tListK, tListBool, tListG, tListInt, tListListK:
 		return "[]"
 	case tInt:
 		return "0"
@@ -112,6 +118,11 @@ func fieldTy(s string) lty {
 const protoParams = "(enc : Enc K G) (bvec : K → List K) (multiScalar : List G → List K → Option G)"
 const protoArgs = "enc bvec multiScalar"
 
+// further abstract parameters of single functions
+var extraParams = map[string]string{
+	"CreateMultiProof": "(normalize : List G → Option (List G)) (commitFn : List K → G) (groupFn : List (List K) → List K → List Int → List (List K)) (wBary wInvDom : List K)",
+}
+
 type loopTr struct {
 	fns    map[string]*loopFn // Go name -> signature (helpers already translated)
 	consts map[string]string  // integer constants
@@ -145,6 +156,8 @@ func goType(e ast.Expr) (lty, bool) {
 		return tListK, true
 	case "[]uint8":
 		return tListInt, true
+	case "[][]fr.Element":
+		return tListListK, true
 	case "*common.Transcript":
 		return tTr, true
 	}
@@ -208,6 +221,8 @@ func (t *loopTr) typeOf(e ast.Expr) lty {
 			return tG
 		case tListInt:
 			return tInt
+		case tListListK:
+			return tListK
 		}
 		die("loops: %s: index into non-slice %s", t.cur.name, exprStr(x))
 	case *ast.SliceExpr:
@@ -227,6 +242,16 @@ func (t *loopTr) typeOf(e ast.Expr) lty {
 			return tInt
 		case "fr.BatchInvert", "BatchInvert", "computeBVector":
 			return tListK
+		case "append":
+			return t.typeOf(x.Args[0])
+		case "groupPolynomialsByEvaluationPoint":
+			return tListListK
+		}
+		if strings.HasSuffix(fn, ".PrecomputedWeights.DivideOnDomain") {
+			return tListK
+		}
+		if strings.HasSuffix(fn, ".Commit") && len(x.Args) == 1 {
+			return tG
 		}
 		if sel, ok := x.Fun.(*ast.SelectorExpr); ok && (sel.Sel.Name == "IsZero" || sel.Sel.Name == "Equal") {
 			return tBool
@@ -500,6 +525,22 @@ func (t *loopTr) valExpr(e ast.Expr) string {
 			return t.intExpr(e)
 		case "computeBVector":
 			return "(bvec " + t.valExpr(x.Args[1]) + ")"
+		case "append":
+			if len(x.Args) != 2 {
+				die("loops: %s: unsupported append", t.cur.name)
+			}
+			return "(" + t.valExpr(x.Args[0]) + " ++ [" + t.valExpr(x.Args[1]) + "])"
+		case "groupPolynomialsByEvaluationPoint":
+			return "(groupFn " + t.valExpr(x.Args[0]) + " " + t.valExpr(x.Args[1]) + " " + t.valExpr(x.Args[2]) + ")"
+		}
+		if fn := exprStr(x.Fun); strings.HasSuffix(fn, ".PrecomputedWeights.DivideOnDomain") {
+			d := t.lookupFn("DivideOnDomain")
+			if d == nil {
+				die("loops: DivideOnDomain used before it is translated")
+			}
+			return "(" + d.name + " wBary wInvDom " + t.intExpr(x.Args[0]) + " " + t.valExpr(x.Args[1]) + ")"
+		} else if strings.HasSuffix(fn, ".Commit") && len(x.Args) == 1 {
+			return "(commitFn " + t.valExpr(x.Args[0]) + ")"
 		}
 		if sel, ok := x.Fun.(*ast.SelectorExpr); ok && (sel.Sel.Name == "IsZero" || sel.Sel.Name == "Equal") {
 			return "(decide " + t.condExpr(e) + ")"
@@ -595,6 +636,18 @@ func (t *loopTr) assigned(stmts []ast.Stmt) []string {
 				}
 			case *ast.ForStmt:
 				walk(x.Body.List)
+			case *ast.RangeStmt:
+				if id, ok := x.Key.(*ast.Ident); ok {
+					declared[id.Name] = true
+				}
+				if id, ok := x.Value.(*ast.Ident); ok {
+					declared[id.Name] = true
+				}
+				walk(x.Body.List)
+			case *ast.IncDecStmt:
+				if n := base(x.X); n != "" {
+					add(n)
+				}
 			case *ast.BlockStmt:
 				walk(x.List)
 			}
@@ -675,8 +728,9 @@ func (t *loopTr) block(ind string, stmts []ast.Stmt, k string, cont string) {
 				for j, n := range vs.Names {
 					if len(vs.Values) > j {
 						ty := t.typeOf(vs.Values[j])
+						v := t.valExpr(vs.Values[j])
 						t.vars[n.Name] = ty
-						fmt.Fprintf(t.sb, "%slet %s : %s := %s\n", ind, n.Name, ty.lean(), t.valExpr(vs.Values[j]))
+						fmt.Fprintf(t.sb, "%slet %s : %s := %s\n", ind, n.Name, ty.lean(), v)
 						continue
 					}
 					if exprStr(vs.Type) == "error" {
@@ -728,6 +782,9 @@ func (t *loopTr) block(ind string, stmts []ast.Stmt, k string, cont string) {
 					call = t.callExpr(c)
 					rtys = f.results
 					withTr = f.hasTr
+				}
+				if len(rtys) == 3 && len(x.Lhs) == 2 && rtys[0] == tListG && rtys[1] == tListG && rtys[2] == tK {
+					rtys = []lty{tProof}
 				}
 				if len(rtys) != len(x.Lhs)-1 {
 					die("loops: %s: arity of %s", t.cur.name, fnName)
@@ -815,6 +872,13 @@ func (t *loopTr) block(ind string, stmts []ast.Stmt, k string, cont string) {
 				if !ok {
 					die("loops: %s: unsupported make(%s)", t.cur.name, exprStr(c.Args[0]))
 				}
+				if len(c.Args) == 3 {
+					if exprStr(c.Args[1]) != "0" {
+						die("loops: %s: make with capacity and non-zero length", t.cur.name)
+					}
+					t.assign(ind, x.Lhs[0], "[]", define, ty)
+					continue
+				}
 				var el string
 				switch ty {
 				case tListK:
@@ -830,7 +894,15 @@ func (t *loopTr) block(ind string, stmts []ast.Stmt, k string, cont string) {
 			ty := t.typeOf(rhs)
 			t.assign(ind, x.Lhs[0], t.valExpr(rhs), define, ty)
 		case *ast.IncDecStmt:
-			die("loops: %s: ++/-- outside a loop header", t.cur.name)
+			id, ok := x.X.(*ast.Ident)
+			if !ok || t.vars[id.Name] != tInt {
+				die("loops: %s: ++/-- on a non-integer", t.cur.name)
+			}
+			op := "+"
+			if x.Tok == token.DEC {
+				op = "-"
+			}
+			fmt.Fprintf(t.sb, "%slet %s : Int := %s %s 1\n", ind, id.Name, id.Name, op)
 		case *ast.ExprStmt:
 			c, ok := x.X.(*ast.CallExpr)
 			if !ok {
@@ -896,6 +968,15 @@ func (t *loopTr) block(ind string, stmts []ast.Stmt, k string, cont string) {
 			}
 			t.assign(ind, sel.X, v, false, rty)
 		case *ast.IfStmt:
+			// `if err := banderwagon.BatchNormalize(Cs); err != nil { return … }`
+			if init, ok := x.Init.(*ast.AssignStmt); ok && len(init.Rhs) == 1 && exprStr(x.Cond) == "err != nil" {
+				if c, ok := init.Rhs[0].(*ast.CallExpr); ok && exprStr(c.Fun) == "banderwagon.BatchNormalize" && len(c.Args) == 1 {
+					arg := t.valExpr(c.Args[0])
+					fmt.Fprintf(t.sb, "%smatch (normalize %s) with\n%s| none => none\n%s| some %s =>\n", ind, arg, ind, ind, arg)
+					t.block(ind+"  ", rest, k, cont)
+					return
+				}
+			}
 			if x.Init != nil || x.Else != nil {
 				die("loops: %s: unsupported if (init/else)", t.cur.name)
 			}
@@ -927,6 +1008,35 @@ func (t *loopTr) block(ind string, stmts []ast.Stmt, k string, cont string) {
 			fmt.Fprintf(t.sb, "%s  else %s\n", ind, tuple(live))
 		case *ast.ForStmt:
 			if t.forLoop(ind, x, rest, k, cont) {
+				return
+			}
+		case *ast.RangeStmt:
+			// `for k, v := range xs { body }`  ==  `for k := 0; k < len(xs); k++ { v := xs[k]; body }`
+			if x.Tok != token.DEFINE {
+				die("loops: %s: unsupported range statement", t.cur.name)
+			}
+			key := "_"
+			if id, ok := x.Key.(*ast.Ident); ok {
+				key = id.Name
+			}
+			if key == "_" {
+				t.tmpN++
+				key = fmt.Sprintf("i_%d", t.tmpN)
+			}
+			kid := ast.NewIdent(key)
+			body := x.Body.List
+			if v, ok := x.Value.(*ast.Ident); ok && v.Name != "_" {
+				bind := &ast.AssignStmt{Lhs: []ast.Expr{ast.NewIdent(v.Name)}, Tok: token.DEFINE,
+					Rhs: []ast.Expr{&ast.IndexExpr{X: x.X, Index: kid}}}
+				body = append([]ast.Stmt{bind}, body...)
+			}
+			loop := &ast.ForStmt{
+				Init: &ast.AssignStmt{Lhs: []ast.Expr{kid}, Tok: token.DEFINE, Rhs: []ast.Expr{&ast.BasicLit{Kind: token.INT, Value: "0"}}},
+				Cond: &ast.BinaryExpr{X: kid, Op: token.LSS, Y: &ast.CallExpr{Fun: ast.NewIdent("len"), Args: []ast.Expr{x.X}}},
+				Post: &ast.IncDecStmt{X: kid, Tok: token.INC},
+				Body: &ast.BlockStmt{List: body},
+			}
+			if t.forLoop(ind, loop, rest, k, cont) {
 				return
 			}
 		case *ast.BranchStmt:
@@ -1086,7 +1196,7 @@ func (t *loopTr) forLoop(ind string, f *ast.ForStmt, rest []ast.Stmt, k string, 
 			st = append(st, m)
 		}
 	}
-	if len(st) == 0 {
+	if len(st) == 0 && !opt {
 		die("loops: %s: loop without effect", t.cur.name)
 	}
 	var tys []string
@@ -1094,6 +1204,19 @@ func (t *loopTr) forLoop(ind string, f *ast.ForStmt, rest []ast.Stmt, k string, 
 		tys = append(tys, t.vars[s].lean())
 	}
 	sty := strings.Join(tys, " × ")
+	if len(st) == 0 {
+		// a pure validation loop: only its error exit matters
+		fmt.Fprintf(t.sb, "%smatch %s (() : Unit) (fun (%s : Int) (_ : Unit) =>\n", ind, head, iv)
+		saved := t.snapshot()
+		t.vars[iv] = tInt
+		t.optLoop++
+		t.block(ind+"    ", f.Body.List, "some ()", "some ()")
+		t.optLoop--
+		t.restore(saved)
+		fmt.Fprintf(t.sb, "%s  ) with\n%s| none => none\n%s| some _ =>\n", ind, ind, ind)
+		t.block(ind+"  ", rest, k, cont)
+		return true
+	}
 	if !opt {
 		fmt.Fprintf(t.sb, "%slet %s : %s := %s %s (fun (%s : Int) (st : %s) =>\n", ind, tuple(st), sty, head, tuple(st), iv, sty)
 		fmt.Fprintf(t.sb, "%s    let %s := st\n", ind, tuple(st))
@@ -1200,6 +1323,10 @@ func (t *loopTr) fn(file *ast.File, goName string, leanName string, proto bool) 
 				f.results = append(f.results, tListG, tListG, tK)
 				continue
 			}
+			if rs == "*MultiProof" {
+				f.results = append(f.results, tProof, tG)
+				continue
+			}
 			ty, ok := goType(r.Type)
 			if !ok {
 				die("loops: %s: unsupported result type %s", goName, rs)
@@ -1217,6 +1344,9 @@ func (t *loopTr) fn(file *ast.File, goName string, leanName string, proto bool) 
 	var ps []string
 	if f.proto {
 		ps = append(ps, protoParams)
+	}
+	if ex, ok := extraParams[goName]; ok {
+		ps = append(ps, ex)
 	}
 	if f.recv != "" {
 		for _, k := range t.fields {
@@ -1329,6 +1459,7 @@ func translateLoops(repo string, write func(name, imports, content string)) {
 	t.sb.WriteString("\nsection\nvariable {K G : Type} [Zero K] [One K] [Add K] [Sub K] [Mul K] [Neg K] [Inv K] [NatCast K] [DecidableEq K]\nvariable [Zero G] [Add G] [Sub G] [SMul K G]\n\n")
 	t.fn(mp, "domainToFr", "domainToFr", false)
 	t.fn(mp, "CheckMultiProof", "checkMultiProof", true)
+	t.fn(mp, "CreateMultiProof", "createMultiProof", true)
 	t.sb.WriteString("end\n\n")
 	t.labelPrefix = ""
 	// names, sorted, for the tie file to check that nothing was dropped
